@@ -326,6 +326,8 @@ static void run_sinks(Case c) {
     // a sink that fails for good after j octets, for the first few j (inside the prefix, at its end, inside the payload)
     for (int j = 0; j <= 6; j++) { c.octet_src = (j & 1); c.frag.clear(); if (j & 2) c.frag.assign(8, 1); c.capdelta = j + 1; run_case(c); }
     vp::cls("encoder-into-failing-sink", 7);
+    // a chunk sink that answers "nothing yet" a million times in a row before it takes the octets (a polled line with a slow peer)
+    if (c.op == 5 && c.n == 3 && !vp::vg().on) { c.capdelta = 0; c.octet_src = false; c.frag.assign(1000001, 0); c.frag.push_back(1); c.frag.insert(c.frag.end(), 1048577, -EAGAIN); run_case(c); vp::cls("encoder-into-sink-idle-for-a-million-calls"); }
 }
 static void run() {
     auto &a = vp::args();
